@@ -648,7 +648,10 @@ impl Gen<'_> {
                     }
                     name = n;
                     let mut word = self.simple_word(depth - 1, in_dq);
-                    if kind == Sw::Assign || !in_dq {
+                    // with no positional parameters, whether `"${x+$@}"` / `"${x+"$@"}"` is zero fields
+                    // (the letter of XCU 2.5.2, and what yash does) or one empty field (dash, bash) is
+                    // not settled either: keep $@ out of switch words in that state
+                    if kind == Sw::Assign || !in_dq || self.npos == 0 {
                         // assigning "$@"/$* is unspecified, and dash, bash and the letter of the standard
                         // disagree on $@/$* inside the word of an unquoted ${x-word}: keep them out
                         strip_multi(&mut word);
